@@ -13,7 +13,8 @@ def deduper(rows: ResourceWrapper):
     else:
         keys = set()
         for row in rows:
-            key = tuple(row[k] for k in pk)
+            # (a boolean key value is not the number Python equates it with: true / 1 are two keys)
+            key = tuple((isinstance(row[k], bool), row[k]) for k in pk)
             if key in keys:
                 continue
             keys.add(key)
